@@ -121,12 +121,12 @@ func runC05(args []string) error {
 	}
 	sm := newSummary("C05")
 	r := newRng(*seed)
-	nMain, nRegion, nCyc, nHost := 80, 32, 4, 40
+	nMain, nRegion, nCyc, nHost, nHostX := 80, 32, 4, 30, 40
 	if *tier == "thorough" {
-		nMain, nRegion, nCyc, nHost = 1700, 500, 40, 1000
+		nMain, nRegion, nCyc, nHost, nHostX = 1700, 500, 40, 800, 1500
 	}
 	t0 := time.Now()
-	st := &c05State{sm: sm, distinct: distinctSet{}}
+	st := &c05State{sm: sm, distinct: distinctSet{}, out: *out}
 	var units []*c05Unit
 	for i := 0; i < nMain; i++ {
 		units = append(units, &c05Unit{idx: len(units), stream: "main", u: genC05Universe(r.fork(), c05MainKnobs)})
@@ -160,6 +160,18 @@ func runC05(args []string) error {
 	for i := 0; i < nHost; i++ {
 		h := genC05Host(r.fork())
 		st.extras = append(st.extras, &c05Extra{id: 900000000 + i*1000, name: fmt.Sprintf("h%d", i), src: h.source(), input: h.describe()})
+	}
+	{
+		// interfaces probed dynamically by compiled code: all subsets (every run) + random chains
+		tbl := hxTable()
+		hxs := genHostXPairs(tbl)
+		for i := 0; i < nHostX; i++ {
+			hxs = append(hxs, genHostXRandom(r.fork(), tbl))
+		}
+		for i, hx := range hxs {
+			st.extras = append(st.extras, &c05Extra{id: 800000000 + i*1000, name: fmt.Sprintf("x%d", i), src: hx.src, hx: hx,
+				input: map[string]any{"level": "hostx", "kind": hx.kind}})
+		}
 	}
 	for i, w := range c05Witnesses {
 		st.extras = append(st.extras, &c05Extra{id: 990000000 + i*1000, name: w.Name, region: w.Region, child: w.Child, src: w.Src, expect: w.Expect, wit: &c05Witnesses[i],
@@ -217,6 +229,7 @@ type c05Extra struct {
 	src    string
 	expect string // witnesses only
 	wit    *c05Witness
+	hx     *c05HostX // probes of the "interfaces probed by compiled code" stream
 	input  map[string]any
 	y      outcome
 	refOut string
@@ -224,6 +237,7 @@ type c05Extra struct {
 }
 
 type c05State struct {
+	out       string
 	nfiles    int
 	fullCount map[string]int
 	extras    []*c05Extra
